@@ -264,7 +264,7 @@ def combinator_block(draw, c, spec, kind):
     return {"type": "nest", "outer": first, "inner": inner, "constraints": cs, "alignment": None}
 
 
-def _snap_pins(draw, spec, always=False):
+def _snap_pins(draw, spec, always=False, always_k=False):
     """Pin indices were drawn relative to the trial count WITHOUT the other constraints; MinimumTrials / Repeat move the
     ends.  Half of the pins are re-anchored to the final geometry of the block that carries them: first / last trial of
     its window counted from either end, and one step outside (0, -1, T-1, -T, T, -T-1)."""
@@ -282,8 +282,19 @@ def _snap_pins(draw, spec, always=False):
                             x["index"] = draw(st.sampled_from([s0, -1, T - 1, -(T - s0), -(T - s0), s0 - 1, -T]))
                         else:
                             x["index"] = draw(st.sampled_from([0, -1, T - 1, -T, 0, -1, T - 1, -T, T, -T - 1]))
+    def visit_k(b):
+        ks = [x for x in b.get("constraints", []) if x.get("kind") in ("atleast", "exactly_row", "exactly_k", "atmost") and "k" in x]
+        if ks:
+            T = estimate_T(dict(spec, block=b))
+            if T:
+                for x in ks:
+                    if (always_k and draw(st.integers(0, 2))) or draw(st.integers(0, 3)) == 0:
+                        # k relative to the FINAL length of the block that carries the constraint: a run exactly as long
+                        # as the window, one shorter, one longer
+                        x["k"] = max(1, draw(st.sampled_from([T, T, T - 1, T + 1, 1, 2])))
     for b in S.iter_blocks(spec["block"]):
         visit(b)
+        visit_k(b)
     return spec
 
 
@@ -529,7 +540,7 @@ def _scenario_spec_raw(draw, c=None):
         if f["name"] not in used and len(f["levels"]) > 1 and draw(st.booleans()):
             f["levels"] = f["levels"][:1]
     spec["scenario"] = sorted(feats)
-    return _snap_pins(draw, spec, always="pin" in feats)
+    return _snap_pins(draw, spec, always="pin" in feats, always_k="run-length" in feats or "exactly-k" in feats)
 
 
 GEN_ERRORS = {}
@@ -576,8 +587,9 @@ def _round_skeleton_raw(draw, c=None):
     crossing = ["A"]
     if what != "basic":
         args = ["B"] if what == "both" else draw(st.sampled_from([["B"], ["A", "B"], ["B", "A"]]))
+        nX = draw(st.sampled_from([2, 2, 3]))        # three levels: a round of 3 leaves room for a leftover of 2
         derived.append({"name": "X", "args": args, "kind": "within", "width": 1, "stride": 1, "start": None,
-                        "levels": [["x0", 1], ["x1", 1]], "else_last": draw(st.integers(0, 3)) == 0,
+                        "levels": [["x%d" % j, 1] for j in range(nX)], "else_last": draw(st.integers(0, 3)) == 0,
                         "salt": draw(st.integers(0, 10 ** 6)), "overrides": {}})
         crossing = ["A", "X"] if what == "both" else ["X"]
     weighted = draw(st.sampled_from(["no", "no", "crossed", "crossed", "uncrossed"]))
